@@ -170,13 +170,13 @@ func gen(seed uint64, tier string) Scenario {
 	// (simulated) milliseconds apart: the second one meets a GET half that has just been paired and
 	// is on its way out (hash-derived so that no other choice moves)
 	race := false
-	if x := core.HS(seed, "c11.tunnelrace", "", 0); x%100 < 6 {
+	if x := core.HS(seed, "c11.tunnelrace", "", 0); x%100 < 10 {
 		t0 := int((x >> 8) % 200000)
 		sc.Hostile = []Hostile{{StartUS: t0, Cookie: "R", End: "silent", Msgs: []Msg{{Tmpl: "http-get", Read: true}}}}
 		sc.Hostile[0].TLS = sc.Secure
 		at := t0 + 20000 + int((x>>24)%50000)
 		for k := 0; k < 2+int((x>>32)%3); k++ {
-			h := Hostile{StartUS: at, SameHost: true, Cookie: "R", TLS: sc.Secure, End: []string{"close", "silent", "rst"}[(x>>(40+2*uint(k)))%3],
+			h := Hostile{StartUS: at, SameHost: true, Cookie: "R", TLS: sc.Secure, End: []string{"close", "silent", "rst", "rst"}[(x>>(40+2*uint(k)))%4],
 				Msgs: []Msg{{Tmpl: "http-post"}, {Tmpl: "b64", Read: true}, {Tmpl: "b64"}}}
 			sc.Hostile = append(sc.Hostile, h)
 			at += 53 + int(core.HS(seed, "c11.tunnelrace.gap", "", uint64(k))%30000) // never at the same instant: the order would be the runtime's choice
@@ -452,6 +452,11 @@ func run(t *testing.T, sc Scenario) *core.Result {
 			IdleTimeout: ms(sc.IdleMS), ReadTimeout: ms(sc.ReadMS), WriteTimeout: ms(sc.ReadMS)}
 		if sc.UDP {
 			srv.UDPRTPAddress, srv.UDPRTCPAddress = "10.0.0.1:8000", "10.0.0.1:8001"
+		}
+		if sc.Net.Window > 0 {
+			// runs with a peer that stops reading: a short queue, so that it is full for most of the time
+			// until the peer is cut off (what is written for the others must still reach them)
+			srv.WriteQueueSize = 8
 		}
 		scheme := "rtsp"
 		if sc.Secure {
